@@ -23,8 +23,10 @@ CLAIMS = {
              'once; shell_association picks the last containing bound; rows are stored under the '
              'shell they were drawn for; what a bound returns lies inside it (selection before '
              'cache, frames), proposals come from unit-cube restricted bounds, the phase shift is '
-             'closed on [0,1), and user code only ever sees copies of the stored points.',
-        ref='DESIGN.md section 4 C01, rules M4 M5 L1 L2 L3 L4 A5 Q3 T8 M3 M6 F6', note=TRUST +
+             'closed on [0,1), and user code only ever sees copies of the stored points; for histories '
+             'with resumes, every renumbering of the shells is followed by a full checkpoint write, '
+             'so points_<i> is never left next to a stale bound_<i>.',
+        ref='DESIGN.md section 4 C01 and 10.9, rules M4 M5 L1 L2 L3 L4 A5 Q3 T8 M3 M6 F6 P4 P6', note=TRUST +
         ' contains() of each bound is numerically what it says (C07 leaf assumption).'),
     'C02': dict(
         technique='lockstep path analysis over per-shell records; dirty=>recompute post-dominance '
@@ -63,9 +65,11 @@ CLAIMS = {
              'counters, nested; the resume block reads only keys the writer produces, into the '
              'attribute they came from, in index order; the generator state is rewritten after '
              'every batch; one seeded generator object is plumbed to every object that draws and '
-             'is never rebound afterwards; no hidden nondeterminism source.  Bit-identity itself is '
-             'not decided.',
-        ref='DESIGN.md section 4 C05 and 10, rules P0 P1 P2 P4 P5 P6 F3 F4', note=TRUST +
+             'is never rebound afterwards; no hidden nondeterminism source; the emulator writer '
+             'sweeps every attribute of the fitted networks; a value cached on demand is '
+             'invalidated by every write to what it was computed from (serial and pool path).  '
+             'Bit-identity itself is not decided.',
+        ref='DESIGN.md section 4 C05 and 10, rules P0 P1 P2 P4 P5 P6 P8 K2 F3 F4', note=TRUST +
         ' h5py round-trips values exactly; sklearn training is deterministic given its seed.'),
     'C06': dict(
         technique='typestate analysis on per-function CFGs (atomic-replace protocol), path '
@@ -75,8 +79,11 @@ CLAIMS = {
              'opened for writing, completely written and closed on every path; no unlink, '
              'truncate or in-place update of the live path anywhere in the package.  That code '
              'shape is necessary and sufficient for "every crash point leaves the old or the new '
-             'state", so the crash-point quantifier collapses.',
-        ref='DESIGN.md section 4 C06, rule T2',
+             'state", so the crash-point quantifier collapses.  A temporary file is published only '
+             'by the function that wrote it (no adoption of left-overs), and an in-place update '
+             'is only ever applied to a copy of a file this run wrote completely and rewrites '
+             'everything that changed since (no mixture of two states through a stale layout).',
+        ref='DESIGN.md section 4 C06 and 10.9, rules T2 P4 P6',
         note=TRUST + ' POSIX rename atomicity; crash = process kill, no fsync obligation.'),
     'C15': dict(
         technique='CFG path rules (validate-before-mutate, dominating uniqueness guard), '
@@ -112,9 +119,11 @@ CLAIMS.update({
              'NautilusBound.sample merges exactly the counters the serial branch advances; '
              'n_sample / n_reject describe the rows actually cached; the acceptance mask depends '
              'on multiplicity over all members and the allocation on member volumes, paired in '
-             'order; counters are covered by update().  Uniformity and volume calibration as '
+             'order; counters are covered by update(); what sample() hands out passed the tests '
+             'contains() applies (cube, any-of neural bounds, frames); a cached volume is '
+             'invalidated by every counter update.  Uniformity and volume calibration as '
              'distributional facts are NOT decided by static analysis.',
-        ref='DESIGN.md section 4 C08, rules A3 T8 Q1 Q2 P4', note=TRUST),
+        ref='DESIGN.md section 4 C08 and 10.9, rules A3 T8 Q1 Q2 P4 M1 K2', note=TRUST),
     'C09': dict(
         technique='writer/reader/updater table extraction and comparison; definite-assignment '
                   'analysis of constructors against the observation interface read set',
@@ -184,14 +193,19 @@ CLAIMS.update({
         ref='DESIGN.md section 4 C14, rules L5 F1 Q4', note=TRUST),
     'C16': dict(
         technique='abstract interpretation: interval domain with open/closed ends and float-mod '
-                  'transfer function; linear-form comparison of forward and inverse shift',
+                  'transfer function; linear-form comparison of forward and inverse shift; '
+                  'piecewise linear-form evaluation of the circular gaps',
         text='Decides closure of [0,1) under PhaseShift.transform in both directions (float '
              'rounding of sums and remainders modelled), that only column periodic[i] is stored to '
              'with centers[i], that the output is a fresh copy, that forward and inverse are '
              'opposite shifts, and that the shift is applied forward on entry to contains() and '
-             'inverted exactly once on exit from sample(), also for pool workers.  Largest-gap '
-             'placement is not decided.',
-        ref='DESIGN.md section 4 C16, rule M6', note=TRUST +
+             'inverted exactly once on exit from sample(), also for pool workers; and, in exact '
+             'rational arithmetic on the expressions of PhaseShift.compute, that the gap vector is '
+             'the differences of the sorted coordinates closed by a wrap-around gap equal to '
+             'x[0] - x[-1] + 1 both for distinct and for coincident coordinates (float modulo '
+             'evaluated piecewise) and that the centre is x[argmax] + max/2 + 1/2 modulo 1 over '
+             'that same vector.',
+        ref='DESIGN.md section 4 C16 and 10.9, rules M6 M8', note=TRUST +
         ' float a % 1 is in [0,1) for a >= 0 and in [0,1] when a may be negative.'),
 })
 
